@@ -766,3 +766,42 @@ def oracle_c13(line, case, stats, allc=None, lines=None):
     return [x[len('X c13-bad '):] for x in case.get('extra', []) if x.startswith('X c13-bad ')][:3]
 def oracle_c14_l3(line, case, stats):
     return [x[len('X c14-bad '):] for x in case.get('extra', []) if x.startswith('X c14-bad ')][:3]
+
+# ------------------------------------------------------------------------------------------------
+# C18: the same cases run (a) one after the other on the main thread, (b) on fresh threads, (c)/(d) spread over worker
+# threads that run concurrently; and a send::HtmlRewriter migrated between threads (harness mode `migrate`).
+MODE_DIFFS = {}
+MODE_STATS = {}
+def prepare_c18(cases_path, runner, build):
+    import subprocess, os
+    harness = os.path.join(build, 'harness-target', 'debug', 'lolverif-harness')
+    MODE_DIFFS.clear(); MODE_STATS.clear()
+    logs = {}
+    for mode in (['cases'], ['fresh'], ['threads', '16'], ['threads', '3']):
+        out = subprocess.run([harness] + mode, stdin=open(cases_path), capture_output=True, text=True, errors='replace', timeout=3000).stdout
+        per, cur, cid = {}, [], None
+        for ln in out.splitlines():
+            if ln.startswith('C '): cid = ln[2:]; cur = []
+            cur.append(ln)
+            if ln == '.' and cid is not None: per[cid] = cur; cid = None
+        logs[' '.join(mode)] = per
+    base = logs['fresh']      # no instance shares a thread with an earlier one
+    for mode, per in logs.items():
+        if mode == 'fresh': continue
+        for cid in base:
+            if per.get(cid) != base[cid] and cid not in MODE_DIFFS:
+                a, b = base[cid], per.get(cid, [])
+                n = next((i for i, (x, y) in enumerate(zip(a, b)) if x != y), min(len(a), len(b)))
+                MODE_DIFFS[cid] = 'run mode "%s" differs from a run on a fresh thread at log line %d: %r vs %r' % (mode, n, (b[n] if n < len(b) else None), (a[n] if n < len(a) else None))
+    MODE_STATS['modes_compared'] = len(logs) - 1
+    MODE_STATS['instances_per_mode'] = len(base)
+    out = subprocess.run([harness, 'migrate'], stdin=open(cases_path), capture_output=True, text=True, errors='replace', timeout=3000).stdout
+    cid = None; nm = 0
+    for ln in out.splitlines():
+        if ln.startswith('C '): cid = ln[2:]; nm += 1
+        elif ln.startswith('X c18-bad') and cid not in MODE_DIFFS: MODE_DIFFS[cid] = ln[len('X c18-bad '):]
+    MODE_STATS['migrated_rewriters'] = nm
+def oracle_c18(line, case, stats, allc=None, lines=None):
+    stats.update(MODE_STATS)
+    cid = case['id']
+    return [MODE_DIFFS[cid]] if cid in MODE_DIFFS else []
